@@ -254,6 +254,14 @@ Lemma run_seeded_oracle_l : forall v, fits (length (v_items v)) ->
   exists o, oracle_guard o /\ run_with o v = run_seeded v.
 Proof. intros v Hf. unfold run_with, run_seeded. apply seeded_oracle_l. exact Hf. Qed.
 
+(** without shuffle the seeded output is the oracle model's output, whatever the seed *)
+Lemma run_seeded_noshuffle_l : forall v, fits (length (v_items v)) -> v_bool (v_nth 1 v) = false ->
+  run_C06s v = run_C06 v.
+Proof.
+  intros v Hf Hs. unfold run_C06s, run_C06, run_seeded, run_with. rewrite Hs.
+  rewrite (seeded_noshuffle_l isize _ _ _ _ (in_seed v) o_default (v_items v) Hf). reflexivity.
+Qed.
+
 Lemma check_run_seeded_l : forall v, fits (length (v_items v)) -> check_C06 v (run_C06s v) = true.
 Proof.
   intros v Hf. destruct (run_seeded_oracle_l v Hf) as (o & Hg & Ho).
